@@ -33,9 +33,9 @@ func FastForward(r *ringz.SyncRing[int], k uint32) bool {
 	}
 	*(*uint32)(unsafe.Pointer(head.UnsafeAddr())) = k
 	*(*uint32)(unsafe.Pointer(tail.UnsafeAddr())) = k
-	base := vals.Pointer()
+	base := vals.UnsafePointer()
 	for i := uint32(0); i < c; i++ {
-		p := (*uint32)(unsafe.Pointer(base + uintptr(i)*et.Size() + pf.Offset))
+		p := (*uint32)(unsafe.Add(base, uintptr(i)*et.Size()+pf.Offset))
 		*p = k + ((i - k) & (c - 1))
 	}
 	return true
@@ -49,7 +49,7 @@ func Snapshot(r *ringz.SyncRing[int]) []uint32 {
 	pf, _ := et.FieldByName("pos")
 	out := []uint32{uint32(v.FieldByName("head").Uint()), uint32(v.FieldByName("tail").Uint())}
 	for i := 0; i < vals.Len(); i++ {
-		out = append(out, *(*uint32)(unsafe.Pointer(vals.Pointer() + uintptr(i)*et.Size() + pf.Offset)))
+		out = append(out, *(*uint32)(unsafe.Add(vals.UnsafePointer(), uintptr(i)*et.Size()+pf.Offset)))
 	}
 	return out
 }
